@@ -1,6 +1,7 @@
 package main
 
 import (
+	"go/types"
 	"fmt"
 	"go/ast"
 	"go/constant"
@@ -29,6 +30,7 @@ var c14Files = []string{
 
 // Sites the prover cannot decide but that are safe for a reason established by reading (frozen; one line each).
 var r141Confirmed = map[string]string{
+	"R14.1|(*decryptor/postgresql.PacketHandler).setDataLengthBuffer|fixed 4 bytes of dataLengthBuffer": "three callers: packetBuf[:4], packetBuf[1:5] (length 4 by construction) and the handler's own descriptionLengthBuf, which is make([]byte, 4) in every constructor and never reassigned (kept honest by the field-length witness of R14.1)",
 	"R14.1|(acrablock.AcraBlock).Build|slice b[4:12]":                    "construction path, not a decoder: b is the block CreateAcraBlockWithBackends just allocated with NewEmptyAcraBlock(AcraBlockMinSize+...), so len(b) >= 18",
 	"R14.1|(acrablock.AcraBlock).SetDataEncryptionType|slice b[15:16]":  "construction path: same freshly allocated block of at least AcraBlockMinSize bytes",
 	"R14.1|(acrablock.AcraBlock).SetKeyEncryptionKeyID|slice b[13:15]":  "construction path: same freshly allocated block of at least AcraBlockMinSize bytes",
@@ -104,6 +106,7 @@ func runC14(p *Program, r *Report) {
 	r.Rule("R14.1", "E1", 40, "guarded bounds: in the input-facing decoders every slice bound, index and allocation size that derives from a length field of the input, from a subtraction, or from a lossy integer conversion is proven in range (0 <= low <= high <= len, 0 <= i < len, 0 <= n) from the branch conditions that dominate the use")
 	boundsRuleK(p, r, "R14.1", c14Files, r141Confirmed, true)
 	ruleR141WitnessEmail(p, r)
+	witnessFieldLen(p, r, "R14.1", "decryptor/postgresql.PacketHandler", "descriptionLengthBuf", 4)
 	r.Rule("R14.3", "E1", 4, "bounded allocation: every make / Buffer.Grow / io.CopyN in the decoders whose size derives from a length field of the input has a finite upper bound that the sender does not control alone: a constant, the length of data already held, or the Len() of the reader it is read from")
 	ruleR143(p, r)
 	r.Rule("R14.4", "E3", 3, "connection isolation: every goroutine that AcraServer starts to serve a client connection runs a function whose first deferred call is recoverConnection (a panic in a decoder ends that connection, not the process)")
@@ -497,4 +500,107 @@ func ruleR147(p *Program, r *Report) {
 			}
 		}
 	}
+}
+
+// witnessFieldLen keeps a confirmed-table reason honest: the slice field `field` of struct `typeSpec` is, everywhere in
+// acra, only ever assigned a fresh buffer of a constant length >= min; its address never escapes; and every
+// composite literal / allocation of the struct assigns it in the allocating function.
+func witnessFieldLen(p *Program, r *Report, rule, typeSpec, field string, min int64) {
+	tn := p.Type(typeSpec)
+	if tn == nil {
+		r.Anchor(rule, typeSpec)
+		return
+	}
+	st, ok := tn.Type().Underlying().(*types.Struct)
+	if !ok {
+		r.Anchor(rule, typeSpec+" (struct)")
+		return
+	}
+	idx := -1
+	for i := 0; i < st.NumFields(); i++ {
+		if st.Field(i).Name() == field {
+			idx = i
+		}
+	}
+	if idx < 0 {
+		r.Anchor(rule, typeSpec+"."+field)
+		return
+	}
+	bad := ""
+	stores, allocs := 0, 0
+	constLen := func(v ssa.Value) (int64, bool) {
+		switch x := v.(type) {
+		case *ssa.MakeSlice:
+			return intConst(x.Len)
+		case *ssa.Slice:
+			if a, ok := x.X.(*ssa.Alloc); ok && x.Low == nil {
+				if n, ok := arrayLen(a.Type()); ok {
+					if x.High == nil {
+						return n, true
+					}
+					return intConst(x.High)
+				}
+			}
+		}
+		return 0, false
+	}
+	for _, fn := range p.srcFns {
+		for _, b := range fn.Blocks {
+			for _, in := range b.Instrs {
+				if al, ok := in.(*ssa.Alloc); ok {
+					if pt, ok := al.Type().Underlying().(*types.Pointer); ok && types.Identical(pt.Elem(), tn.Type()) {
+						allocs++
+						set := false
+						if refs := al.Referrers(); refs != nil {
+							for _, rf := range *refs {
+								if fa, ok := rf.(*ssa.FieldAddr); ok && fa.Field == idx {
+									set = true
+								}
+							}
+						}
+						if !set {
+							bad = "a " + tn.Name() + " is allocated in " + fnName(fn) + " without assigning " + field
+						}
+					}
+				}
+				fa, ok := in.(*ssa.FieldAddr)
+				if !ok || fa.Field != idx {
+					continue
+				}
+				pt, ok := fa.X.Type().Underlying().(*types.Pointer)
+				if !ok || !types.Identical(pt.Elem(), tn.Type()) {
+					continue
+				}
+				if refs := fa.Referrers(); refs != nil {
+					for _, rf := range *refs {
+						switch x := rf.(type) {
+						case *ssa.UnOp:
+						case *ssa.Store:
+							if x.Addr != ssa.Value(fa) {
+								bad = "the address of " + field + " is stored in " + fnName(fn)
+								continue
+							}
+							stores++
+							if n, ok := constLen(x.Val); !ok || n < min {
+								bad = field + " is assigned something other than a fresh buffer of at least the confirmed length in " + fnName(fn)
+							}
+						case *ssa.DebugRef:
+						default:
+							bad = "the address of " + field + " escapes in " + fnName(fn)
+						}
+					}
+				}
+			}
+		}
+	}
+	if stores == 0 {
+		bad = "no assignment of " + field + " found"
+	}
+	r.Check(bad == "", rule, typeSpec, "field "+field+" always holds a buffer of at least the confirmed length", p.Pos(tn.Pos()), "every assignment is a fresh constant-size buffer; every allocation of the struct assigns it", bad)
+}
+
+func init() {
+	mut("C14", "stored int32 token decoded without a length check (original defect)", "pseudonymization/utils.go", "	if len(data) < 4 {\n		return 0, ErrDataTypeMismatch\n	}\n", "", "R14.1", "decodeInt32")
+	mut("C14", "pg length buffer constructed with 2 bytes", "decryptor/postgresql/packet_handler.go", "		descriptionLengthBuf: make([]byte, 4),", "		descriptionLengthBuf: make([]byte, 2),", "R14.1", "descriptionLengthBuf")
+	mut("C14", "prepare response parsed without its length check", "decryptor/mysql/column_field.go", "	if len(data) != PreparedStatementResponseLength {\n		return nil, ErrInvalidResponseLength\n	}\n", "", "R14.1", "ParsePrepareStatementResponse")
 }
